@@ -5,3 +5,5 @@ INVARIANT Tiles
 INVARIANT AnalyticSizes
 CONSTRAINT EmitConstraint
 CHECK_DEADLOCK FALSE
+INVARIANT WindNeverFabricates
+INVARIANT WindFullFileReadsAll
